@@ -11,7 +11,8 @@ VARIANT = "asan"
 DRIVER = "C09"
 
 RULE = ("port trees of depth 1..4 built from one table per level of the struct family N0>N1>N2>N3: sub-tree ports from "
-        "rRecur / rRecurp / rRecurs (#1..#3) callbacks and multi-component names such as a#3/b#2/c/ (hand-written "
+        "rRecur / rRecurp / rRecurs (#1..#3) callbacks under one-component names and under multi-component names "
+        "(a/b/, a/b#3/c/), multi-component names with several '#' such as a#3/b#2/c/ (hand-written "
         "recursion callback), leaves from rToggle / rParamI / rSelf callbacks and plain leaves with 0..2 '#N', "
         "multi-component names and argument parts; 'enabled by' metadata on sub-tree ports and on self:; walked without "
         "a runtime object and with one under random assignments of every toggle and every rRecurp pointer; initial "
@@ -19,21 +20,25 @@ RULE = ("port trees of depth 1..4 built from one table per level of the struct f
 TRUSTED = ["harness/h_C09.cpp: the struct family, the run-time pairing of names/metadata with macro-generated callbacks, "
            "the resolution of table addresses to objects, the walker callback, the dispatch of every reported address",
            "tools/props/ports_common.py: the Spec-side expansion of '#N'"]
-ASSUMPTIONS = ["sub-tree names end in '/'; rRecur/rRecurp/rRecurs names have one component (their callbacks strip one); "
-               "no ':' in front of a '#'; 1 <= N",
-               "'enabled by' names a toggle of the same table, or (rRecur / rRecurp ports) a toggle inside the sub-tree "
-               "it disables ('name/toggle'); for enumerated sub-trees the latter is not generated (the source's own "
-               "TODO: the address of the enabling port keeps '#N')",
+ASSUMPTIONS = ["sub-tree names end in '/'; a name paired with the rRecurs callback has exactly one '#' (the callback takes "
+               "the index at the first one); no ':' in front of a '#'; 1 <= N",
+               "'enabled by' names a toggle of the same table, or (rRecur / rRecurp / rRecurs ports with a one-component "
+               "name) a toggle inside the sub-tree it disables ('name/toggle', 'name#N/toggle')",
                "the buffer is large enough (walk_ports' own asserts are off in the pinned build type)",
-               "dispatch of a reported address is demanded when no concrete sibling name is a prefix of another and "
-               "literal characters are not digits (as in C18_lookup)"]
+               "dispatch of a reported address is demanded when names_ok holds (the hypothesis of C09_dispatchable_names_ok; "
+               "macro callbacks only) or when no concrete sibling name is a prefix of another and literal characters are "
+               "not digits"]
 
-KIND_SUB = "RPAM"
+KIND_SUB = "RPAMXYZ"
+KIND_OBJ_SUB, KIND_OBJ_PTR, KIND_OBJ_ARR = "RX", "PY", "AZ"
 
 def lit(s):
     return ('L', s.encode() if isinstance(s, str) else s)
 
 bump_shape = [0]
+bump_macro = [0]
+bump_enum_inside = [0]
+ALPH = ["abcdxyz"]       # literal characters of generated names; with digits in 30 % of the trees
 def gen_level_tables(rng, depth, dirty):
     """tables[lv] = list of ports (dicts with an extra 'kind'); every sub-tree
     port of level lv has sub = tables[lv+1]"""
@@ -46,7 +51,7 @@ def gen_level_tables(rng, depth, dirty):
             # strict names (toggles, sub-trees) are never equal to another base name: the
             # runtime oracle and 'enabled by' address ports by name
             for _ in range(80):
-                s = "".join(rng.choice("abcdxyz") for _ in range(rng.randint(1, n)))
+                s = "".join(rng.choice(ALPH[0]) for _ in range(rng.randint(1, n)))
                 if s == "self" or s in reserved or (strict and s in used):
                     continue
                 if dirty and not strict or not any(u.startswith(s) or s.startswith(u) for u in used):
@@ -95,6 +100,27 @@ def gen_level_tables(rng, depth, dirty):
                         continue
                 elif k == 'A':
                     segs = [lit(fresh(strict=True)), ('E', rng.choice([1, 2, 2, 3, 3, 3, 11, 12] if lv == 0 else [1, 2, 3])), lit("/")]
+                    if child_toggles and rng.random() < 0.35:
+                        # 'enabled by' names a port inside the ENUMERATED sub-tree it disables: "name#N/toggle"
+                        tg = rng.choice(child_toggles)['name'].split(b":")[0]
+                        meta = pc.render_meta([(b"enabled by", pc.render_segs(segs) + tg), (b"doc", b"d")])
+                        t.append(pc.mk_port(segs, b"", meta, tables[lv + 1], kind=k))
+                        bump_enum_inside[0] += 1
+                        continue
+                elif rng.random() < 0.55:
+                    # a multi-component name under a MACRO recursion callback: X rRecurCb(sub),
+                    # Y rRecurpCb(subp), Z rRecursCb(arr,12) with exactly one '#'
+                    k = rng.choice("XYZ")
+                    nc = rng.choice([2, 2, 3])
+                    hash_at = rng.randrange(nc) if k == 'Z' else -1
+                    segs = []
+                    for ci in range(nc):
+                        segs.append(lit(fresh(strict=(ci == 0))))
+                        if ci == hash_at:
+                            segs.append(('E', rng.choice([1, 2, 3, 11, 12] if lv <= 1 else [1, 2, 3])))
+                        segs.append(lit("/"))
+                    segs = merge(segs)
+                    bump_macro[0] += 1
                 else:
                     segs = []
                     for ci in range(rng.choice([2, 2, 3])):
@@ -175,11 +201,11 @@ def toggle_kind(t, name):
 def child_key(p, a_idx):
     """which field of the parent object a sub-tree port leads to"""
     k = p['kind']
-    if k == 'R':
+    if k in KIND_OBJ_SUB:
         return ('sub',)
-    if k == 'P':
+    if k in KIND_OBJ_PTR:
         return ('subp',)
-    if k == 'A' or pc.n_hash(p['segs']):
+    if k in KIND_OBJ_ARR or pc.n_hash(p['segs']):
         return ('arr', a_idx)
     return ('sub',)
 
@@ -228,7 +254,7 @@ def spec_walk(t, rt, off, nulls, addr, ids=(), key=()):
                 sa = addr + a
                 ckey = key + (child_key(p, idx),)
                 if rt:
-                    if p['kind'] == 'P' and key in nulls:
+                    if p['kind'] in KIND_OBJ_PTR and key in nulls:
                         continue
                     e = enabled_by(p)
                     if e is not None and b"/" in e:
@@ -255,11 +281,14 @@ def gen(rng, tier, dist):
     for _ in range(ntree):
         depth = rng.choice([1, 2, 2, 3, 3, 4])
         dirty = rng.random() < 0.15
+        ALPH[0] = "abcdxyz12" if rng.random() < 0.3 else "abcdxyz"
         tabs = gen_level_tables(rng, depth, dirty)
         t = tabs[0]
         et, ek = pc.enc_tree(t), kinds_of(t)
         bump(dist, "depth-%d" % depth)
         bump(dist, "subtree-name-prefix-of-its-toggle", bump_shape[0]); bump_shape[0] = 0
+        bump(dist, "multi-component-name-under-macro-callback", bump_macro[0]); bump_macro[0] = 0
+        bump(dist, "enabled-by-inside-enumerated-subtree", bump_enum_inside[0]); bump_enum_inside[0] = 0
         flat = [p for tb in tabs for p in tb]
         bump(dist, "trees-with-subtree-N>=11", 1 if any(p['sub'] is not None and any(k == 'E' and v >= 11 for k, v in p['segs']) for p in flat) else 0)
         bump(dist, "trees-with-leaf-two-hash", 1 if any(p['sub'] is None and pc.n_hash(p['segs']) >= 2 for p in flat) else 0)
@@ -267,6 +296,7 @@ def gen(rng, tier, dist):
         # prints what the extracted Coq function says; macro recursion ports only)
         nok = 1 if pc.names_ok(t) and 'M' not in ek else 0
         bump(dist, "names_ok-trees", nok)
+        bump(dist, "names_ok-trees-with-literal-digits", 1 if nok and any(48 <= c <= 57 for p in flat for k, v in p['segs'] if k == 'L' for c in v) else 0)
         tables = all_tables(t)
         keys = sorted({k for _, _, k in tables})
         tab_of_key = {}
@@ -282,12 +312,12 @@ def gen(rng, tier, dist):
                     for w in "TU":
                         if rng.random() < pr:
                             off.add((k, w))
-                    if any(p['kind'] == 'P' for p in tb) and rng.random() < pr:
+                    if any(p['kind'] in KIND_OBJ_PTR for p in tb) and rng.random() < pr:
                         nulls.add(k)
             dis, selfoff, nulladdrs = [], [], []
             for a, tb, k in tables:
                 for p in tb:
-                    if p['kind'] == 'P' and k in nulls:
+                    if p['kind'] in KIND_OBJ_PTR and k in nulls:
                         nulladdrs += [a + x for x in pc.expand(p['segs'])]
                     e = enabled_by(p)
                     if e is None:
@@ -324,8 +354,11 @@ def parse_case(case):
     if f[5] != "-":
         for x in f[5].split(";"):
             a = unhx(x)                      # address of the sub-tree: its parent table owns subp
-            cut = a[:-1].rfind(b"/") + 1
-            nulls.add(key_of[a[:cut]])
+            for pa, tb, k in tables:
+                if a.startswith(pa) and any(q['sub'] is not None and q['kind'] in KIND_OBJ_PTR
+                                            and a[len(pa):] in pc.expand(q['segs']) for q in tb):
+                    nulls.add(k)
+                    break
     off = set()
     if f[8] != "-":
         for e in f[8].split(";"):
@@ -361,10 +394,10 @@ def spec_check(case, impl):
         return "buffer: holds %r afterwards, started with %r" % (unhx(m["buf"]), buf)
     f = case.split(" ")
     nok = len(f) > 9 and f[9] == "nok=1"
-    # kind X = the macro callback rRecurCb under a multi-component name: its SNIP strips one
-    # component only, so nothing below such a port is dispatchable (recorded observation;
-    # the shape C09_dispatchable excludes: sub-tree ports of more than one component)
-    if (tree_ok(t) or nok) and 'X' not in f[2]:
+    # kinds X Y Z = the macro recursion callbacks under multi-component names: dispatchable
+    # since SNIP skips as many components as the name has (C09_multicomponent_macro_pinned_refuted
+    # keeps the old behaviour)
+    if tree_ok(t) or nok:
         d = m["d"].split(";") if m["d"] != "-" else []
         for (i, a), r in zip(got, d):
             if canon_ids(t, r) != i:
@@ -441,6 +474,7 @@ LEVEL_TEXT = ("For every well-formed tree ('#N' at any level, leaf names with se
               "the Spec's enumeration (C09_enumerates); the buffer is restored for every tree, oracle and initial content "
               "(C09_buffer_restored); pruning by NULL object / 'enabled by' per expansion (C09_pruning, C09_pruning_enumerated, "
               "C09_self_disabled); every reported address is dispatched to the reported port, with and without a location buffer, "
-              "for names of the macro shape and pairwise non-overlapping siblings (C09_dispatchable = C09_enumerates + C05 + C04).")
+              "for names of the macro shape - sub-tree names of one or more components - and pairwise non-overlapping siblings "
+              "(C09_dispatchable = C09_enumerates + C05 + C04).")
 LEVEL_NOTE = ("Trusted: Coq kernel, extraction, OCaml driver, harness, generator. The C++ code is modelled by hand "
               "(coq/Ports/WalkModel.v) and related to the model only by the correspondence run.")
